@@ -43,6 +43,17 @@ MAX_WITNESSES = 10
 
 
 def cells(tier):
+    """the thorough tier is the deeper cells plus every cell of the quick
+    tier (special situations are written once, for the quick tier)"""
+    out = _cells(tier)
+    if tier != 'quick':
+        for c in _cells('quick'):
+            if c not in out:
+                out.append(c)
+    return out
+
+
+def _cells(tier):
     out = []
     if tier == 'quick':
         out.append({'kind': 'retry', 'backend': 'dict', 'msgs': 2, 'fails': 1})
